@@ -608,9 +608,9 @@ worker_main(int widx, int nworkers, const CheckSpec& spec, Harness* H,
             bool dump_fps, int out_fd, Shared* sh)
 {
     Agg a;
-    const int B = std::max(1, H->batch(spec.property));
     size_t want_samples = 2;
     for (auto& prof : spec.profiles) {
+        const int B = std::max(1, H->batch(spec.property, prof.name));
         uint64_t R = tier == "thorough" ? prof.thorough_runs : prof.quick_runs;
         R = (uint64_t)((double)R * scale);
         if (R == 0 && scale > 0 && (tier == "thorough" ? prof.thorough_runs
